@@ -213,9 +213,10 @@ class C05Monitor(Monitor):
         self.probe = {"local_evals": 0, "refinements": 0, "global_evals": 0, "result_points": 0}
 
     def _inside(self, a, y):
+        # exact: global trials are cell centres (at least half a cell inside) and the bounded
+        # Nelder-Mead clips to the bounds, so no rounding allowance is needed or granted
         for yi, lo, hi in zip(y, a.lower, a.upper):
-            tau = 1e-12 * (hi - lo)
-            if not (lo - tau <= yi <= hi + tau):
+            if not (lo <= yi <= hi):
                 return False
         return True
 
@@ -250,6 +251,10 @@ class C05Monitor(Monitor):
         if len(pt) == a.N and not self._inside(a, pt):
             w.flag(self.prop, "result_outside_box", "%s: %s returned point %r outside [%r, %r]" % (a.aid, kind, pt, a.lower, a.upper), kind)
         refined = kind == "refine" or (kind == "solve" and a.params.get("refineSolution"))
+        if outcome.get("raised") or a.fired_faults:
+            # a refinement that was interrupted by an objective failure returns nothing; what the result
+            # must look like after a failure is C16's subject, not C05's
+            refined = False
         if refined and a.local_calls():
             self.probe["refinements"] += 1
             g = [c.value for c in a.global_calls()]
